@@ -48,7 +48,9 @@ THEOREMS = [
     # API level (argument handling of the generators, the call as a whole)
     'C13.callSizes_eq_sizes', 'C13.call_refuses_bad_multipliers', 'C13.checkMultsRaw_some_iff', 'C13.callHead_ok_spec',
     'C13.callHead_refused_shift_keeps_state', 'C13.callHead_bad_shape_after_shift', 'C13.callSizes_covers_minimum',
-    'C13.monopoleCall_spec',
+    'C13.monopoleCall_spec', 'C13.arrayCall_spec', 'C13.ceilOfFloor_spec', 'C13.minMult_least',
+    # optimality of the two searches of __set_cells
+    'C13.cosLt_iff', 'C13.bestOf_optimal', 'C13.searchM_optimal', 'C13.searchN_optimal',
 ]
 PARTIAL = {
     'array deletion count': 'array_deletion_count_partial proves that an accepted array has removed exactly `expected` atoms '
@@ -71,10 +73,12 @@ PARTIAL = {
     'width, which is only bounded numerically here: |error| <= 6 |b| (h/(pi X_left) + h/(pi X_right)) + 0.02 |b| '
     '(+ 0.1 |b| for arrays), h the half spacing of the planes adjoining the slip plane, X the distance of the outermost '
     'atomic columns from the core',
-    'uvws search optimality': 'uvws_zone_law / uvws_right_handed prove that the selected in-plane vector obeys the zone law, '
-    'makes an acute angle with m, the out-of-plane one an acute angle with n, and that all six row orders are right handed; '
-    'that the selected vectors are the candidates of *smallest* angle is not stated as a theorem (the correspondence and the '
-    'relational driver op `cellsvalid` check it case by case)',
+    'uvws search: ties': 'searchM_optimal / searchN_optimal prove that the selected in-plane vector has the largest cosine '
+    'with m among ALL in-plane lattice vectors within the index bound and the out-of-plane one the largest cosine with n '
+    '(comparison of signed squared cosines, cosLt_iff: equivalent to the comparison of the angles); uvws_zone_law / '
+    'uvws_right_handed the zone law and the handedness.  Not a theorem: WHICH of several equally close vectors is taken '
+    '(the first in the enumeration order of itertools.product, then divided by its gcd) and the isclose() tolerance of the '
+    'two selections (exact in the model): correspondence (`cells`, `cellsvalid`) and the oracle clause cells:n-closest',
     'rotation of the cell': 'System.rotate / normalize (C04, C05) and conventional_to_primitive are not re-modelled here: the '
     'rotated cell enters the monopole / array model as data; the oracle checks on the real results that rcell is ucell\'s '
     'crystal (every atom on a lattice site of its type, det(uvws) natoms atoms) and that rcell.box.vects = uvws . '
@@ -121,6 +125,9 @@ ASSUMPTIONS = [
     'is exempt; all such exemptions are counted in the evidence (exempt_near)',
     'the Box.vects setter zeroes entries below 1e-9 of the largest one: the alignment refusal is modelled with that relative '
     'bound on squared quantities',
+    'numpy.ceil is the parameter `ceil` of callSizes / callHead (theorems: for every ceil; callSizes_covers_minimum needs only '
+    'x <= ceil x; the driver op `head` uses ceilOfFloor Rat.floor, specified by ceilOfFloor_spec, on the exact quotient of the '
+    'two doubles: quotients within half an ulp above a whole number are exempt and counted)',
     'ceil(amin / a), boundarywidth * ucell.a and center . rcell.vects are computed by the harness in floats and passed to '
     'the mono / array model runs; the centre and the width are checked on every configuration against the model\'s own '
     'exact conversion (resolveCenter, resolveWidth; driver op params), ceil(amin / a) against an exact rational ceiling '
@@ -854,10 +861,13 @@ def _tr_set_shift(out):
             return '.ok sv'
         if v == 'self.shifts[shiftindex]' and 'shiftindex' in bound:
             return 'idx shifts iv'
-        if isinstance(st.value, _ast.Subscript) and _u(st.value.value) == 'self.shifts' \
-                and isinstance(st.value.slice, _ast.Constant) and isinstance(st.value.slice.value, int):
-            k = st.value.slice.value
-            return f'idx shifts ({k} : Int)' if k >= 0 else f'idx shifts (-{-k} : Int)'
+        if isinstance(st.value, _ast.Subscript) and _u(st.value.value) == 'self.shifts':
+            try:
+                k = _ast.literal_eval(st.value.slice)
+            except Exception:  # noqa
+                k = None
+            if isinstance(k, int) and not isinstance(k, bool):
+                return f'idx shifts ({k} : Int)' if k >= 0 else f'idx shifts (-{-k} : Int)'
         _fail('set_shift: value stored', st)
 
     def tree(node, bound):
@@ -1617,13 +1627,17 @@ def gen_config(rng, d, kind, nmax=220):
         if f is not None:
             cfg['boundaryscale'] = f                         # no width: no boundary whatever the flag
     if kind == 'mono':
-        cfg['boundaryshape'] = rng.choice(['cylinder', 'box'])
+        shape_ = rng.choice(['cylinder', 'box', None, 'box'])
+        if shape_ is not None:
+            cfg['boundaryshape'] = shape_                    # None: the keyword is left out (documented default: cylinder)
         if rng.random() < 0.04:
             cfg['boundarywidth'] = 40.0                      # radius <= 0: Cylinder's assertion
         if rng.random() < 0.02:
             cfg['boundaryshape'] = rng.choice(['sphere', 'Box', 'cyl'])   # must be refused (ValueError)
     else:
-        cfg['linear'] = rng.random() < 0.4
+        lin_ = rng.random()
+        if lin_ < 0.8:
+            cfg['linear'] = lin_ < 0.32                      # otherwise the keyword is left out (documented default: False)
         if rng.random() < 0.3:
             cfg['cutoff'] = round(rng.uniform(0.2, 1.2), 3)
     if cfg.get('sizemults') is not None and rng.random() < 0.04:
